@@ -295,7 +295,7 @@ def gen_case(rng, big=False):
     alphabet = rng.choice([b"xy\n", b"xyz\n\n\n", b"ab\r\n", bytes(range(256)), b"\n"])
     data = bytes(rng.choice(alphabet) for _ in range(n))
     if big:
-        pat = bytes(rng.choice(alphabet) for _ in range(rng.choice([1, 7, 64, 100])))
+        pat = bytes(rng.choice(alphabet) for _ in range(rng.choice([7, 64, 100])))
         reps = n // len(pat) + 1
         data = pat * reps
     style = rng.randrange(4)
